@@ -79,7 +79,8 @@ package crlstore
 //@   props C18 C09
 //@   requires storeOK(self)
 //@   assigns X.fs
-//@   ensures err == nil ==> ret != nil
+//@   fresh r0
+//@   ensures err == nil ==> ret != nil && ret.Certificate != nil && ret.Certificate.SerialNumber != nil && ret.RawCertificate != nil
 //@ func CRLStore.GetCRLLocations
 //@   props C18 C09
 //@   requires storeOK(self)
@@ -95,17 +96,21 @@ package crlstore
 //@ func CRLStore.Update
 //@   props C08 C11 C18
 //@   requires storeOK(self) && storeOK(store) && store != self
+//@   ensures closableOK(store)
 //@   assigns MapStore.Map, M.map[string][]uint8, LevelDbStore.Db, X.ldbhas, X.fs
 //@   ensures[C11,C18] replaced: err == nil ==> storeOK(self) && (forall k string :: storeHas(self, k) == old(storeHas(store, k)))
 //@   ensures[C08] failure_keeps_old: err != nil ==> storeOK(self) && (forall k string :: storeHas(self, k) == old(storeHas(self, k)))
 
+//@ spec func closableOK(s ref) bool = s != nil && (typeis(s, *MapStore) ==> as(s, *MapStore) != nil) && (typeis(s, *LevelDbStore) ==> as(s, *LevelDbStore) != nil && as(s, *LevelDbStore).Logger != nil && as(s, *LevelDbStore).Db != nil)
+//@ spec func isTempStore(tag int, s int) bool uninterpreted
+
 //@ func CRLStore.Close
 //@   props C18 C20
-//@   requires storeOK(self)
+//@   requires closableOK(self)
 //@   assigns X.fs
 //@ func CRLStore.Delete
 //@   props C18 C20
-//@   requires storeOK(self)
+//@   requires closableOK(self)
 //@   assigns X.fs
 
 //@ spec func factoryOK(f ref) bool = f != nil && (typeis(f, MapStoreFactory) ==> as(f, MapStoreFactory).Serializer != nil) && (typeis(f, LevelDbStoreFactory) ==> as(f, LevelDbStoreFactory).Serializer != nil && as(f, LevelDbStoreFactory).Logger != nil)
@@ -113,8 +118,9 @@ package crlstore
 //@ func Factory.CreateStore
 //@   props C18 C20
 //@   requires factoryOK(self)
-//@   assigns X.fs, X.ldbhas
-//@   ensures err == nil ==> ret != nil && storeOK(ret)
+//@   assigns X.fs, X.ldbhas, X.retry
+//@   fresh r0
+//@   ensures err == nil ==> ret != nil && storeOK(ret) && isTempStore(ret) == temporary
 
 // ---- serializer (encoding/asn1 round trips are assumed, see DESIGN C18)
 
@@ -147,7 +153,7 @@ package crlstore
 //@   ensures err == nil ==> ret != nil
 //@ func Serializer.DeserializeSignatureCert
 //@   pure
-//@   ensures err == nil ==> ret != nil
+//@   ensures err == nil ==> ret != nil && ret.SerialNumber != nil
 //@ func Serializer.DeserializeCRLLocations
 //@   pure
 //@   ensures err == nil ==> ret != nil
@@ -189,8 +195,9 @@ package crlstore
 
 //@ func CreateStoreFactory
 //@   props C18 C20
+//@   requires logger != nil
 //@   pure
-//@   ensures err == nil ==> ret != nil
+//@   ensures err == nil ==> ret != nil && factoryOK(ret)
 
 // ---- the persisting consumer of the streaming reader
 
